@@ -339,7 +339,14 @@ func oversizeStrings(rt *rapid.T) ([]byte, string) {
 // than the reader's window: whatever the parser does with it, the cost must stay proportional to the packet.
 func xmpLongToken(rt *rapid.T) ([]byte, string) {
 	n := rapid.SampledFrom([]int{2000, 20000, 100000, 300000, 1000000}).Draw(rt, "toklen")
-	where := rapid.SampledFrom([]string{"element-text", "attribute-value", "white-space", "tag-name", "array-item"}).Draw(rt, "where")
+	where := rapid.SampledFrom([]string{"element-text", "attribute-value", "white-space", "tag-name", "array-item", "many-malformed-values"}).Draw(rt, "where")
+	if where == "many-malformed-values" {
+		// very many short attributes whose values the typed parsers reject: whatever a rejection costs, it is paid per attribute
+		attr := rapid.SampledFrom([]string{`xmpMM:InstanceID="x"`, `xmpMM:DocumentID="0123456789"`, `xmp:CreateDate="x"`, `exif:FNumber="1/"`, `xmp:Rating="-"`, `exif:GPSLatitude="1,2,3,4N"`}).Draw(rt, "badattr")
+		k := rapid.SampledFrom([]int{1000, 50000, 150000}).Draw(rt, "nattr")
+		body := "<x:xmpmeta xmlns:x=\"adobe:ns:meta/\"><rdf:RDF xmlns:rdf=\"http://www.w3.org/1999/02/22-rdf-syntax-ns#\"><rdf:Description rdf:about=\"\" " + strings.Repeat(attr+" ", k) + "></rdf:Description></rdf:RDF></x:xmpmeta>"
+		return []byte(body), fmt.Sprintf("%d x %s", k, attr)
+	}
 	long := strings.Repeat("v", n)
 	head := "<x:xmpmeta xmlns:x=\"adobe:ns:meta/\"><rdf:RDF xmlns:rdf=\"http://www.w3.org/1999/02/22-rdf-syntax-ns#\"><rdf:Description rdf:about=\"\" xmlns:dc=\"http://purl.org/dc/elements/1.1/\" xmlns:tiff=\"http://ns.adobe.com/tiff/1.0/\""
 	tail := "</rdf:Description></rdf:RDF></x:xmpmeta>"
